@@ -508,6 +508,28 @@ impl<T: Types> RaftLog<T> {
         Ok(self.wal.last_segment())
     }
 
+    /// Verification accessor: the resident payload-cache entries as
+    /// `(log id, payload size)`, the evictable boundary, and the cache's own
+    /// item/size counters, all read under one read lock.
+    #[cfg(feature = "verif-hooks")]
+    #[allow(clippy::type_complexity)]
+    pub fn verif_cache_resident(
+        &self,
+    ) -> (Vec<(T::LogId, u64)>, Option<T::LogId>, u64, u64) {
+        let cache = self.state_machine.payload_cache.read().unwrap();
+        let resident = cache
+            .cache
+            .iter()
+            .map(|(k, v)| (k.clone(), T::payload_size(v)))
+            .collect();
+        (
+            resident,
+            cache.last_evictable().cloned(),
+            cache.item_count() as u64,
+            cache.total_size() as u64,
+        )
+    }
+
     /// Returns the current size of the log on disk in bytes.
     ///
     /// This includes all closed chunks and the open chunk, measuring from the
